@@ -1300,6 +1300,20 @@ def parse_txt(txt, xopts=None, **kwargs):
 
     if not txt:
         return []
+    # text protected inside text inside text ...: a template that calls itself
+    # from inside <ref> or <poem> re-enters here without ever passing the
+    # expander's recursion guard
+    depth = (xopts.parse_depth or 0) + 1
+    if depth > 20:
+        return []
+    xopts.parse_depth = depth
+    try:
+        return _parse_tokens(txt, xopts, uniquifier)
+    finally:
+        xopts.parse_depth = depth - 1
+
+
+def _parse_tokens(txt, xopts, uniquifier):
     tokens = tokenize(txt, uniquifier=uniquifier)
 
     td2 = TagParser()
